@@ -188,10 +188,12 @@ impl Ctx {
         }
     }
     pub fn seen(&mut self, set: &str, item: &str) {
-        self.sets
-            .entry(set.to_string())
-            .or_default()
-            .insert(item.to_string());
+        // coverage sets are categorical (token types, error codes, ...); open-ended ones are capped
+        // so that the evidence file stays small
+        let s = self.sets.entry(set.to_string()).or_default();
+        if s.len() < 300 || s.contains(item) {
+            s.insert(item.to_string());
+        }
     }
     pub fn eval(&mut self) {
         self.evaluations += 1;
